@@ -31,6 +31,7 @@ func (g *GlobalGroupSet) String() string {
 func (g *GlobalGroupSet) Merge(query *Query, group *GroupSet) error {
 	g.semaphore <- struct{}{}
 	defer func() { <-g.semaphore }()
+	vhook.At("merge.locked", g, group)
 	return g.merge(query, group)
 }
 
